@@ -20,8 +20,26 @@ pub fn hamming(a: &[f32], b: &[f32]) -> usize {
     a.iter().zip(b).filter(|(x, y)| x.is_sign_positive() != y.is_sign_positive()).count()
 }
 
+/// The reference is computed under the default floating-point control state, whatever the code under test left in
+/// the thread's MXCSR: with flush-to-zero / denormals-are-zero set, even the f32 -> f64 conversions below read
+/// subnormal inputs as 0 and the reference would agree with a kernel that flushes them.
+#[inline]
+pub fn default_fp_env() {
+    #[cfg(target_arch = "x86_64")]
+    #[allow(deprecated)]
+    unsafe {
+        use std::arch::x86_64::{_mm_getcsr, _mm_setcsr};
+        // keep the sticky exception flags (low 6 bits), restore masks / rounding / FTZ / DAZ
+        let cur = _mm_getcsr();
+        if cur & !0x3F != 0x1F80 {
+            _mm_setcsr(0x1F80 | (cur & 0x3F));
+        }
+    }
+}
+
 /// The mathematically defined distance between a query and a stored vector, as arroy reports it.
 pub fn exact_distance(metric: Metric, dims: usize, q: &[f32], v: &[f32]) -> Exact {
+    default_fp_env();
     let n = dims as f64;
     if !metric.is_bq() && (q.iter().any(|x| !x.is_finite()) || v.iter().any(|x| !x.is_finite())) {
         return Exact { value: f64::NAN, tol: 0.0, exempt: true };
